@@ -1,0 +1,11 @@
+//go:build verif
+
+package streams
+
+import "lunar/engine/streams/processors"
+
+// VerifSetFactory registers a processor factory on the stream's private processor manager
+// (verification harnesses use it to plug in probe processors).
+func (s *Stream) VerifSetFactory(name string, factory processors.ProcessorFactory) {
+	s.processorsManager.SetFactory(name, factory)
+}
